@@ -199,9 +199,16 @@ func stripIDs(v interface{}) interface{} {
 	case map[string]interface{}:
 		out := map[string]interface{}{}
 		for k, e := range x {
-			if k != "id" {
-				out[k] = stripIDs(e)
+			if k == "id" {
+				continue
 			}
+			se := stripIDs(e)
+			// an object that held nothing but the helper id is pruned by the scrubber in one order
+			// and kept (as `{id}`) in the other: after stripping, `{}` and "absent" are the same
+			if m, ok := se.(map[string]interface{}); ok && len(m) == 0 {
+				continue
+			}
+			out[k] = se
 		}
 		return out
 	case []interface{}:
